@@ -229,6 +229,13 @@ def run_undef(f, fi, doc, prelude):
                     if m.get("k") == "fn":
                         nested[(vf.strip_generics(it["self_ty"]), m["name"])] = m
     depth = [0]
+    module_fns = {x.name: x.node for x in f.fns(B) if x.impl_self is None and not x.in_test and all(absint.default_cfg(c) for c in x.cfg)}
+
+    def resolve(name):
+        # helper functions of pest_bridge.rs (module level) are interpreted like the nested ones
+        if "::" in name or name in ("pest_span_to_position", "pest_span_to_ast_span"):
+            return None
+        return module_fns.get(name)
 
     def call(fnode, env):
         depth[0] += 1
@@ -236,6 +243,7 @@ def run_undef(f, fi, doc, prelude):
             raise Unknown("depth")
         it = Interp(env=env, on_call=on_call)
         it.consts = {"STANDARD_PRELUDE": ("list", prelude)}
+        it.resolve_fn = resolve
         try:
             return it.block(fnode["body"])
         except Return as r:
